@@ -2,12 +2,17 @@ package checks
 
 import (
 	"bytes"
+	"crypto/sha256"
+	"encoding/hex"
 	"fmt"
 	"sort"
 	"strings"
 	"sync"
 	"testing"
 	"testing/synctest"
+
+	"github.com/bronlabs/bron-crypto/pkg/base/curves/k256"
+	l17dealer "github.com/bronlabs/bron-crypto/pkg/mpc/signatures/ecdsa/lindell17/keygen/trusted_dealer"
 
 	"verif/cbor"
 	"verif/harness"
@@ -342,5 +347,81 @@ func C07Workloads() []harness.Workload {
 		c07Workload("lindell22-bip340", false),
 		c07Workload("dkls23-bbot", true),
 		c07Workload("dkls23-softspoken", true),
+		{Name: "paired-lindell17-dealer", Run: RunC07Lindell17, EnumerateT: func(t *testing.T, tier string, seedInt int64, _ sim.Seed) ([]map[string]string, error) {
+			return []map[string]string{{"sub": "hidden-source"}, {"sub": "sensitivity"}}, nil
+		}},
 	}
+}
+
+// ---- Lindell17 key material: Paillier keys must come from the supplied reader ----
+
+func l17DealDigest(rc *harness.RunCtx, global, stream string) (string, map[sim.ID]string, error) {
+	setGlobalRand(rc.T, global)
+	spec, err := genFixedThreshold(2, c04IDs)
+	if err != nil {
+		return "", nil, err
+	}
+	dealt, pub, err := l17dealer.DealRandom(k256.NewCurve(), spec.lib, l17KeyLen, sim.NewRand(rc.Seed.Sub("rand/l17dealer/"+stream)))
+	if err != nil {
+		return "", nil, err
+	}
+	moduli := map[sim.ID]string{}
+	for id, sh := range dealt.Iter() {
+		for peer, ppk := range sh.PaillierPublicKeys().Iter() {
+			moduli[peer] = fmt.Sprintf("%x", sha256.Sum256([]byte(fmt.Sprint(ppk))))
+		}
+		_ = id
+	}
+	return hex.EncodeToString(pub.Value().Bytes()), moduli, nil
+}
+
+// RunC07Lindell17 checks the Lindell17 trusted dealer with paired executions.
+func RunC07Lindell17(rc *harness.RunCtx) harness.Outcome {
+	sub := rc.Params["sub"]
+	probes := map[string]int{}
+	out := harness.Outcome{Class: "lindell17-dealer " + sub, NonTrivial: true, Probes: probes, Params: rc.Params, Cells: []string{"lindell17-dealer|" + sub}, Trace: []string{"lindell17-dealer|" + sub}}
+	var herr error
+	synctest.Test(rc.T, func(t *testing.T) {
+		rc2 := *rc
+		rc2.T = t
+		pkA, modA, err := l17DealDigest(&rc2, "default", "a")
+		if err != nil {
+			herr = err
+			return
+		}
+		switch sub {
+		case "hidden-source":
+			pkB, modB, err := l17DealDigest(&rc2, "other", "a")
+			if err != nil {
+				herr = err
+				return
+			}
+			if pkA != pkB {
+				out.Violation = &harness.Violation{Class: "depends-on-process-global-randomness", Site: "lindell17/trusted_dealer: ECDSA key", Detail: "identical supplied reader, different process-global source: the dealt ECDSA key differs"}
+				return
+			}
+			for id, m := range modA {
+				if modB[id] != m {
+					out.Violation = &harness.Violation{Class: "depends-on-process-global-randomness", Site: "lindell17 Paillier key generation (nt.GeneratePrimePair -> crypto/rsa.GenerateKey)", Detail: fmt.Sprintf("identical supplied reader, different process-global source: the Paillier key dealt to %d differs, so the key is drawn from crypto/rand and not from the reader the caller supplied", id)}
+					return
+				}
+			}
+			probes["hidden_source_pairs_identical"]++
+		case "sensitivity":
+			pkB, _, err := l17DealDigest(&rc2, "default", "b")
+			if err != nil {
+				herr = err
+				return
+			}
+			if pkA == pkB {
+				out.Violation = &harness.Violation{Class: "joint-value-independent-of-party-stream", Site: "lindell17/trusted_dealer", Detail: "another supplied reader gives the same ECDSA key"}
+				return
+			}
+			probes["joint_value_changed"]++
+		}
+	})
+	if herr != nil {
+		return harness.Outcome{HarnessErr: herr}
+	}
+	return out
 }
